@@ -2,5 +2,5 @@ Require Extraction.
 Require Import ExtrOcamlBasic.
 From Coq Require Import ZArith NArith.
 From SWH.lib Require Import Sha1.
-From SWH.model Require Import Dir FromDisk FromDiskIter.
-Extraction "extract/C13/model.ml" from_disk from_disk_iter lid lrev mt_id mt_get node_id git_node_id prune_empty prune_named export norm_path wf_fs keys sha1 Z.of_N N.to_nat.
+From SWH.model Require Import Dir FromDisk FromDiskIter FromDiskPat.
+Extraction "extract/C13/model.ml" from_disk from_disk_iter lid lrev mt_id mt_get node_id git_node_id prune_empty prune_named export norm_path wf_fs keys from_disk_pat pat_filter old_pass2 prune_pat glob_match rel_path sha1 Z.of_N N.to_nat.
